@@ -45,6 +45,9 @@ const FILE_MAGIC: &[u8; 8] = b"CSCCACH1";
 const FILE_HEADER_LEN: usize = 16;
 /// Expiry field of an entry without expiration
 const NO_EXPIRY: u64 = u64::MAX;
+/// Extension of temporary files. No data file can carry it: in the file name of a key
+/// every `%` is followed by two hex digits (see `encode_key_component`).
+const TEMP_EXTENSION: &str = "%tmp";
 
 /// Build the file header that records when an entry expires.
 ///
@@ -502,8 +505,9 @@ impl<K: CacheKey + 'static> DiskCache<K> {
         Ok(())
     }
 
-    /// Unique temporary file name next to `path`, ending in ".tmp" (such files
-    /// are skipped by the directory scan in `size()`)
+    /// Unique temporary file name next to `path`, ending in `TEMP_EXTENSION` (such files
+    /// are skipped by the directory scan in `size()`; a key may well end in ".tmp", so
+    /// that extension would not tell a temporary file from a data file)
     fn temp_path_for(path: &Path) -> PathBuf {
         static TEMP_SEQ: AtomicU64 = AtomicU64::new(0);
 
@@ -512,7 +516,7 @@ impl<K: CacheKey + 'static> DiskCache<K> {
             .file_name()
             .map(std::ffi::OsStr::to_os_string)
             .unwrap_or_default();
-        name.push(format!(".{}.{seq}.tmp", std::process::id()));
+        name.push(format!(".{}.{seq}.{TEMP_EXTENSION}", std::process::id()));
         path.with_file_name(name)
     }
 
@@ -634,7 +638,7 @@ impl<K: CacheKey + 'static> DiskCache<K> {
                 && let Some(file_name) = path.file_name().and_then(|n| n.to_str())
                 && !std::path::Path::new(file_name)
                     .extension()
-                    .is_some_and(|ext| ext.eq_ignore_ascii_case("tmp"))
+                    .is_some_and(|ext| ext == TEMP_EXTENSION)
             {
                 *count += 1;
             }
